@@ -1,3 +1,3 @@
 import CobaVerif.Driver.Loop
--- stub: replaced when the C12 model exists
-def main : IO Unit := Coba.J.runLoop (fun _ => .error "C12 driver not implemented")
+import CobaVerif.Driver.C12
+def main : IO Unit := Coba.J.runLoop Coba.C12.Driver.handle
